@@ -120,6 +120,7 @@ def run():
                 ck.violation('links and emphasis: input=%r expected=%r observed=%r' % (text, want, got),
                              {'input': text, 'expected': want, 'observed': got, 'clause': 'Inline.links-and-emphasis' if not got.startswith('EXCEPTION') else 'Emphasis.failure'})
     ck.extra['strings_with_brackets'] = n_links
+    inline_scan_layer(ck, m, quick)
     ck.extra['exhaustive_strings'] = n_exh
     # random strings over the wide alphabet: TLC computes the expected structure of their class strings in batch
     n_rand = 4000 if quick else 100000
@@ -160,6 +161,50 @@ def run():
     ck.assumptions = ['the inline text is observed as the content of an ATX heading ("# " + text)',
                       'character classes follow CommonMark 0.30: Zs/tab/LF/FF/CR are whitespace, ASCII punctuation and Unicode P* are punctuation']
     return ck.finish()
+
+
+INLINE_ALPHABETS = {'I1': ['a', ' ', '*', '`', '\\'], 'I2': ['a', '*', '`', '<', '>', '/'], 'I3': ['a', ':', '<', '>', '*', '`'],
+                    'I4': ['a', ' ', '`', '<', '>', '\\', '_']}
+INLINE_UNSETTLED = {'unsettled-escaped-backtick-before-backticks', 'unsettled-autolink-address-spelling'}
+
+
+def inline_scan_layer(ck, m, quick):
+    """spec/InlineScan.tla: backslash escapes, code spans, autolinks and raw HTML tags scanned from left to right, the constructs
+    protecting what they cover from the delimiter algorithm; every string up to length 5 (quick) / 6 (thorough) over four raw
+    alphabets, sharded by the first character."""
+    jobs = [('InlineScan%s%s.cfg' % (a, 'q' if quick else 't'), ch) for a, chars in sorted(INLINE_ALPHABETS.items()) for ch in chars if ch != ' ']
+
+    def one(job):
+        cfg, sh = job
+        return core.tlc('InlineScan', cfg, workers=1, env={'SHARD': sh}, timeout=3000, heap='2g')
+    with ThreadPoolExecutor(max_workers=core.NCPU) as ex:
+        results = list(ex.map(one, jobs))
+    n = skipped = 0
+    seen = set()
+    for res in results:
+        ck.add_tlc(res)
+        for rec in res.printed_json():
+            text = rec['input']
+            if text in seen:
+                continue
+            seen.add(text)
+            if set(rec['tags']) & INLINE_UNSETTLED:
+                skipped += 1
+                continue
+            got = observed(m, text)
+            ck.count(('inline', text))
+            n += 1
+            ck.traces += 1
+            if n % 7919 == 1:
+                ck.sample({'input': text, 'expected': rec['html'], 'observed': got})
+            if got != rec['html']:
+                ck.violation('inline scan: input=%r expected=%r observed=%r' % (text, rec['html'], got),
+                             {'input': text, 'expected': rec['html'], 'observed': got, 'classes': sorted(rec['tags']),
+                              'clause': 'Inline.scan' if not got.startswith('EXCEPTION') else 'Emphasis.failure'})
+    if n < 20000:
+        raise core.MachineryError('InlineScan.tla exported only %d strings' % n)
+    ck.extra['inline_scan_strings'] = n
+    ck.extra['inline_scan_unsettled_not_judged'] = skipped
 
 
 def batch(ck, recs, shard=2500):
